@@ -83,10 +83,15 @@ def digitsVal : Str → Nat → Bool → Option Nat
       | [] => none
     else none
 
+/-- `sys.get_int_max_str_digits()` (CPython default) -/
+def pyIntMaxDigits : Nat := 4300
+
 /-- Python `int(x)` for ASCII input after the given whitespace has been stripped:
     `some (neg, magnitude)` or `none` for ValueError. -/
 def pyInt (space : Nat → Bool) (s : Str) : Option (Bool × Nat) :=
   let t := stripBy space s
+  -- CPython ≥ 3.11: more than `sys.get_int_max_str_digits()` (default 4300) digit characters ⇒ ValueError
+  if (t.filter isDigit).length > pyIntMaxDigits then none else
   match t with
   | [] => none
   | 43 :: r => (digitsVal r 0 false).map (fun v => (false, v))
@@ -144,9 +149,12 @@ def parseResponse (data : Bytes) : Response :=
 def Response.get (r : Response) (name : Str) : Option Str :=
   (r.headers.find? (fun p => p.1 = lower name)).map (·.2)
 
-def Response.getList (r : Response) (name : Str) : List Str :=
-  let v := (r.get name).getD []
+/-- the comma-separated elements of a header value (`get_list`'s body) -/
+def splitList (v : Str) : List Str :=
   if strip v = [] then [] else (splitOn1 44 v).map strip
+
+def Response.getList (r : Response) (name : Str) : List Str :=
+  splitList ((r.get name).getD [])
 
 /-- `parse_extension` : (token, options as assoc list, later duplicates win on lookup) -/
 def parseExtension (ext : Str) : Str × List (Str × Str) :=
@@ -248,20 +256,31 @@ def joinWith (sep : Bytes) : List Bytes → Bytes
   | [x] => x
   | x :: r => x ++ sep ++ joinWith sep r
 
+/-- decimal digits of `n`, most significant first (`fuel` bounds the number of digits) -/
+def decDigits : Nat → Nat → Bytes
+  | 0, _ => []
+  | fuel + 1, n => if n < 10 then [48 + n] else decDigits fuel (n / 10) ++ [48 + n % 10]
+
+/-- `str(n).encode()` -/
+def natBytes (n : Nat) : Bytes := decDigits (n + 1) n
+
+/-- an ASCII literal as bytes (`ofString` reduces in the kernel, `String.toUTF8` does not) -/
+def lit (s : String) : Bytes := ofString s
+
 def deflateOffer : Bytes :=
-  strBytes "permessage-deflate; server_max_window_bits=15; client_max_window_bits, permessage-deflate; client_max_window_bits"
+  lit "permessage-deflate; server_max_window_bits=15; client_max_window_bits, permessage-deflate; client_max_window_bits"
 
 /-- `WebSocket.build_request` -/
 def buildRequest (c : ReqCfg) : Bytes :=
   let hdrs : List (Bytes × Bytes) :=
     c.customHeaders ++
-    [ (strBytes "Host", c.hostPort), (strBytes "Upgrade", strBytes "websocket"),
-      (strBytes "Connection", strBytes "Upgrade"), (strBytes "Sec-WebSocket-Key", c.key),
-      (strBytes "Sec-WebSocket-Version", strBytes (toString Gen.wsVersion)),
-      (strBytes "User-Agent", c.agent) ] ++
-    (if c.protocols ≠ [] then [(strBytes "Sec-WebSocket-Protocol", joinWith (strBytes ", ") c.protocols)] else []) ++
-    (if c.compress then [(strBytes "Sec-WebSocket-Extensions", deflateOffer)] else [])
-  joinCRLF ([strBytes "GET " ++ c.resource ++ strBytes " HTTP/1.1"] ++
-            hdrs.map (fun h => h.1 ++ strBytes ": " ++ h.2) ++ [crlf])
+    [ (lit "Host", c.hostPort), (lit "Upgrade", lit "websocket"),
+      (lit "Connection", lit "Upgrade"), (lit "Sec-WebSocket-Key", c.key),
+      (lit "Sec-WebSocket-Version", natBytes Gen.wsVersion),
+      (lit "User-Agent", c.agent) ] ++
+    (if c.protocols ≠ [] then [(lit "Sec-WebSocket-Protocol", joinWith (lit ", ") c.protocols)] else []) ++
+    (if c.compress then [(lit "Sec-WebSocket-Extensions", deflateOffer)] else [])
+  joinCRLF ([lit "GET " ++ c.resource ++ lit " HTTP/1.1"] ++
+            hdrs.map (fun h => h.1 ++ lit ": " ++ h.2) ++ [crlf])
 
 end Lomond.Http
